@@ -662,11 +662,31 @@ def rule_P2(ck, rule="P2"):
                 if good:
                     ok = True
                     break
+            if not ok and (has_unknown(e.args[1]) or any(t is not None and (has_unknown(t) or fm_imprecise(t) or _reduced_masks(t)) for _, t in allowed)
+                           or fm_imprecise(e.args[1]) or _reduced_masks(e.args[1])):
+                rec.broken("%s %s %s: allocation size comparison undecided (opaque atoms in %s)" % (tu.cfg, rule, fn, show(e.args[1])[:100]))
+                continue
             rec.ob(rule, ok, {"config": tu.cfg, "witness": fn, "obligation": "data block allocation requests the source's footprint or a fresh vector's", "bytes": show(e.args[1])[:160]})
             if not ok:
                 rec.finding(rule, "%s:data-block-alloc-size[%s]" % (fn.replace("w_", ""), ck.catkey()),
                             "%s allocates a data block of %s bytes, which is neither %s (at %s)" % (
                                 fn, show(e.args[1])[:200], " nor ".join("%s = %s" % (nm, show(t)[:120]) for nm, t in allowed if t is not None), tu.where(sm, e)), config=tu.cfg)
+
+
+def _reduced_masks(t):
+    """x & m atoms with a negative mask that is not -2^k (a rounding mask from which the compiler removed bits it
+    knew to be zero) or masked joins: opaque to the linear reasoning"""
+    bad = []
+
+    def fn(a):
+        if a[0] == "and":
+            for w in (a[1], a[2]):
+                if isinstance(w, Lin) and w.is_const() and w.c < 0 and (-w.c) & (-w.c - 1):
+                    bad.append(a)
+            if not any(isinstance(w, Lin) and w.is_const() for w in (a[1], a[2])):
+                bad.append(a)
+    walk_atoms(t, fn)
+    return bad
 
 
 def mk_mul_(a, b):
